@@ -136,6 +136,23 @@ example : GoodVRec exampleVRec := by
       | exact Or.inl rfl
       | exact Or.inr ⟨_, rfl, c _ (by decide) (by decide) (by decide) (by decide) (by decide) (by decide) (by decide)⟩
 
+/-! ### Outside the alphabet: qualified flavors -/
+
+def clashInfo (n : Nat) : Info :=
+  { declarer := Fld.val [114], declared := Fld.val [84, n], productDir := Fld.val [100, n],
+    upsDir := Fld.val [117, 112, 115], tableFile := Fld.val [97, 46, 116] }
+def clashRec : VRec :=
+  { name := some [97], version := some [49], flavors := [([76], clashInfo 49), ([76, 58, 98], clashInfo 50)] }
+
+/-- Outside the alphabet of the round-trip theorem: a version file that holds the flavor `L` *and then* the
+qualified flavor `L:b` does not read back — on meeting `QUALIFIERS = "b"` the reader renames the block it already
+has for `L`, so the unqualified declaration is lost and its fields are overwritten. -/
+theorem C16_qualifier_clash_witness :
+    ∃ text, printVersion clashRec = .ok (some text) ∧
+      parseVersion none none text =
+        .ok { name := some [97], version := some [49], flavors := [([76, 58, 98], clashInfo 50)] } := by
+  refine ⟨_, rfl, ?_⟩
+  rfl
 /-! ## End to end -/
 
 /-- **Relocation through the text of the record**: `Database.declare` into an empty version file with the stack at
